@@ -28,7 +28,7 @@ pub fn props() -> Vec<Prop> {
             id: "C07",
             run: c07,
             tools: None,
-            rule: "read side: a handle from read() and a std::io::Cursor over the same bytes are driven in lock-step by every script up to depth 2 (quick) / 3 (thorough) over read(buf of 0,1,len-1,len,len+1 bytes), seek(Start|Current|End with every offset in -len-1..=len+2 and i64::MIN, i64::MAX, u64::MAX), stream_position, read_to_end, read_to_string, read_exact for files of length 0..=5, plus seeded random longer scripts; every returned value must agree (same Ok value / both Err), after an Err the position is unchanged, nothing panics. write side: every composition of 6 bytes into <= 4 chunks x flush bit after each chunk x drop after every prefix, for write() and append() on absent / empty / non-empty files; after every flush and after the drop an independent read must equal exactly the bytes written so far (append: old content + those bytes); for append() handles additionally another append_all to the same file at every point where the handle has nothing unflushed (after open, after each flush): its byte and the handle's bytes must all be there in the order they were made durable; for write() handles on the in-memory backend a write_all by someone else at the same points: each later flush and the drop still leave exactly the bytes written through the handle. Both backends (Stdfs offsets limited to < 2^32). distinct_nontrivial = distinct (backend, script shape class, outcome class) tuples.",
+            rule: "read side: a handle from read() and a std::io::Cursor over the same bytes are driven in lock-step by every script up to depth 2 (quick) / 3 (thorough) over read(buf of 0,1,len-1,len,len+1 bytes), seek(Start|Current|End with every offset in -len-1..=len+2 and i64::MIN, i64::MAX, u64::MAX), stream_position, read_to_end, read_to_string, read_exact for files of length 0..=5, plus seeded random longer scripts; every returned value must agree (same Ok value / both Err), after an Err the position is unchanged, nothing panics. write side: every composition of 6 bytes into <= 4 chunks x flush bit after each chunk x drop after every prefix, for write() and append() on absent / empty / non-empty files; after every flush and after the drop an independent read must equal exactly the bytes written so far (append: old content + those bytes); for append() handles additionally another append_all to the same file at every point where the handle has nothing unflushed (after open, after each flush): its byte and the handle's bytes must all be there in the order they were made durable; for write() handles on the in-memory backend a write_all by someone else at the same points: each later flush and the drop still leave exactly the bytes written through the handle; and a flush that fails because the file was removed under the handle, after which - the file being there again - the next flush and the drop deliver every byte no successful flush had delivered. Both backends (Stdfs offsets limited to < 2^32). distinct_nontrivial = distinct (backend, script shape class, outcome class) tuples.",
             assumptions: &["what a write() handle shows between open and its first flush is not specified and not judged", "on Stdfs offsets beyond 2^32 are answered by the kernel (EINVAL), not by rivia, and are not generated"],
             shards_quick: 8,
             shards_thorough: 16,
@@ -781,6 +781,93 @@ fn c07_write<V: VirtualFileSystem>(v: &V, backend: &str, root: &str, ctx: &Ctx, 
     }
 }
 
+/// In-memory backend only: a flush that FAILS (the file was removed under the handle) makes nothing durable - so it
+/// must not count the bytes as written either. Once the file is there again, the next flush and the drop show every
+/// byte the handle was given and that no successful flush had delivered yet (append: after what the file holds by
+/// then; write: the whole of what was written through the handle). The real backend's handle keeps writing to the
+/// unlinked inode, which is a different (and not stated) behaviour.
+fn c07_failed_flush<V: VirtualFileSystem>(v: &V, backend: &str, root: &str, rep: &mut Report) {
+    let _ = v.mkdir_p(root);
+    for append in [false, true] {
+        for first_flush in [false, true] {
+            for bytes_before_failure in [false, true] {
+                for recreate_with in ["", "R"] {
+                    rep.eval();
+                    let path = format!("{}/ff", root);
+                    let _ = v.remove(&path);
+                    let what = if append { "append" } else { "write" };
+                    let variant = format!("first-flush={},bytes-before-failing-flush={},recreated-{}", first_flush, bytes_before_failure, if recreate_with.is_empty() { "empty" } else { "with-content" });
+                    rep.key_str(&format!("{}|{}|failed-flush|{}", backend, what, variant));
+                    let r = catch(|| -> Option<(String, String)> {
+                        let mut h = match if append { v.append(&path) } else { v.write(&path) } {
+                            Ok(h) => h,
+                            Err(e) => return Some(("open→Err".into(), e.to_string())),
+                        };
+                        let mut undelivered: Vec<u8> = vec![]; // given to the handle, no successful flush since
+                        let mut all: Vec<u8> = vec![];
+                        let _ = h.write_all(b"AB");
+                        undelivered.extend(b"AB");
+                        all.extend(b"AB");
+                        if first_flush {
+                            if h.flush().is_err() {
+                                return Some(("first-flush→Err".into(), String::new()));
+                            }
+                            undelivered.clear();
+                        }
+                        if v.remove(&path).is_err() {
+                            return Some(("remove-under-the-handle→Err".into(), String::new()));
+                        }
+                        if bytes_before_failure {
+                            let _ = h.write_all(b"CD");
+                            undelivered.extend(b"CD");
+                            all.extend(b"CD");
+                        }
+                        let failed = h.flush().is_err();
+                        rep.count(if failed { "flushes_that_failed_on_a_removed_file" } else { "flushes_on_a_removed_file_that_reported_ok" }, 1);
+                        if !failed {
+                            return None; // nothing stated about a flush that claims success there
+                        }
+                        if v.write_all(&path, recreate_with.as_bytes()).is_err() {
+                            return Some(("recreate→Err".into(), String::new()));
+                        }
+                        let _ = h.write_all(b"EF");
+                        undelivered.extend(b"EF");
+                        all.extend(b"EF");
+                        if h.flush().is_err() {
+                            return Some(("flush-after-recreation→Err".into(), String::new()));
+                        }
+                        let exp: Vec<u8> = if append {
+                            let mut e = recreate_with.as_bytes().to_vec();
+                            e.extend(&undelivered);
+                            e
+                        } else {
+                            all.clone()
+                        };
+                        let got = exec(v, &Op::ReadBytes(path.clone()));
+                        if got != Res::Bytes(exp.clone()) {
+                            return Some(("after-the-flush-that-succeeded:every-undelivered-byte→differs".into(), format!("expected {:?} got {}", String::from_utf8_lossy(&exp), got.short())));
+                        }
+                        drop(h);
+                        let got = exec(v, &Op::ReadBytes(path.clone()));
+                        if got != Res::Bytes(exp.clone()) {
+                            return Some(("after-drop:every-undelivered-byte→differs".into(), format!("expected {:?} got {}", String::from_utf8_lossy(&exp), got.short())));
+                        }
+                        None
+                    });
+                    match r {
+                        Err(m) => rep.violation(&format!("handle:{}({},failed-flush):no-panic→panic", what, backend), J::s(m)),
+                        Ok(Some((sig, d))) => rep.violation(
+                            &format!("handle:{}({},failed-flush):{}", what, backend, sig),
+                            J::obj(vec![("backend", J::s(backend)), ("handle", J::s(what)), ("variant", J::s(&variant)), ("script", J::s("open; write AB; [flush]; remove(file); [write CD]; flush (fails); write_all(file, R|empty); write EF; flush; drop")), ("detail", J::s(d))]),
+                        ),
+                        Ok(None) => {},
+                    }
+                }
+            }
+        }
+    }
+}
+
 fn c07(ctx: &Ctx, rep: &mut Report) {
     let (sb, root) = Sandbox::nested("c07");
     if !drop_privileges(&sb, 1000, 1000) {
@@ -791,6 +878,10 @@ fn c07(ctx: &Ctx, rep: &mut Report) {
     c07_write(&m, "memfs", "/w", ctx, rep);
     let vm = Vfs::memfs();
     c07_write(&vm, "vfs-memfs", "/w", ctx, rep);
+    if ctx.shard == 0 {
+        c07_failed_flush(&m, "memfs", "/ff", rep);
+        c07_failed_flush(&vm, "vfs-memfs", "/ff", rep);
+    }
     let s = Stdfs::new();
     c07_read(&s, "stdfs", &format!("{}/r", root), ctx, rep, false);
     c07_write(&s, "stdfs", &format!("{}/w", root), ctx, rep);
